@@ -210,7 +210,7 @@ impl Property for C17 {
     fn rule(&self) -> String {
         "ResultRows built directly (1-6 distinct column names incl. a lone `input`; every type; i64 extremes, |n| > 2^53, finite REALs of every magnitude incl. -0.0 and subnormals; \
          TEXT with quotes, backslashes, control, non-ASCII, delimiter and line-break characters; NULLs; arrays up to 40 elements; timestamps; intervals) printed through the real \
-         OutputPrinter into a capturing Printer in text / json / csv, in 1-4 print calls of 1-5 rows, single_result on/off. Oracle: decode the printed records and compare with the rows \
+         OutputPrinter into a capturing Printer in text / json / csv, in 1-4 print calls of 0-5 rows (one case in 25: one call with 100-1300 rows), single_result on/off. Oracle: decode the printed records and compare with the rows \
          (JSON exactly; CSV header once + one field per column; text `name: value` pairs in column order). Non-trivial: a row with >= 1 NULL, >= 1 text needing JSON escaping and \
          >= 1 number beyond 2^53 or a REAL with more than 2 fractional digits; distinct by case."
             .to_string()
@@ -226,7 +226,7 @@ impl Property for C17 {
 
     fn cases(&self, tier: Tier) -> u64 {
         match tier {
-            Tier::Quick => 1_200_000,
+            Tier::Quick => 600_000,
             Tier::Thorough => 6_000_000,
         }
     }
@@ -253,17 +253,28 @@ impl Property for C17 {
         let nprints = 1 + t.draw(4);
         let mut prints = Vec::new();
         let mut delimiter_free = true;
-        for _ in 0..nprints {
-            let nrows = match t.draw(4) {
-                0 => 1,
-                1 => 1,
-                2 => 2,
+        // one case in 25 has a print call with hundreds of rows (a result table, not a single followed row)
+        let big_call = if t.chance(1, 25) { Some(t.draw(nprints)) } else { None };
+        for p in 0..nprints {
+            let nrows = match t.draw(9) {
+                // an empty result (e.g. an aggregate whose HAVING admits no group yet)
+                0 => 0,
+                1..=4 => 1,
+                5 | 6 => 2,
                 _ => 1 + t.draw(5),
             };
             let mut rows = Vec::new();
             for _ in 0..nrows {
                 let row: Vec<V> = kinds.iter().map(|k| gen_value(t, *k, nasty)).collect();
                 rows.push(row);
+            }
+            if big_call == Some(p) && !rows.is_empty() {
+                let target = 100 + t.draw(1200);
+                let base = rows.clone();
+                while rows.len() < target {
+                    let next = base[rows.len() % base.len()].clone();
+                    rows.push(next);
+                }
             }
             prints.push(rows);
         }
@@ -365,6 +376,13 @@ impl Property for C17 {
             }
             "csv" => {
                 let header = case.columns.join(";");
+                if all_rows.is_empty() {
+                    // no record at all: the header precedes the first record, so nothing (or just the header) is fine
+                    if lines.iter().any(|l| !l.is_empty() && l != &header) {
+                        return fail("record-count", format!("no rows, but printed {:?}", lines));
+                    }
+                    return Ok(());
+                }
                 if lines.first() != Some(&header) {
                     return fail("header", format!("first line is not the header {:?}", header));
                 }
